@@ -29,7 +29,7 @@ structure Accepted : Prop where
   atol_nonneg : 0 ≤ p.atol
   herm : ∀ t ∈ p.terms, ∀ a b : Fin p.d, star (t.2.get b.val a.val) = t.2.get a.val b.val
   h0_diag : ∀ t ∈ p.terms, t.1 = p.zeroOrder → ∀ a b : Fin p.d, a ≠ b → t.2.get a.val b.val = 0
-  elim_symm : ∀ a b : Fin p.d, p.elimIn a.val b.val = p.elimIn b.val a.val
+  elim_symm : ∀ a b : Fin p.d, p.blk a.val = p.blk b.val → p.elimIn a.val b.val = p.elimIn b.val a.val
   diag_kept : ∀ a : Fin p.d, p.keptE a.val a.val = true
   gap : ∀ a b : Fin p.d, p.keptE a.val b.val = false →
     Scalar.absGt (p.energy a.val - p.energy b.val) p.atol = true
